@@ -328,7 +328,19 @@ func ruleErrFlow(c *Ctx) {
 				report(OK, call, callee, "package-level / var initialiser")
 				return true
 			case *ast.BinaryExpr, *ast.IfStmt, *ast.SwitchStmt, *ast.UnaryExpr:
-				// `if f() != nil`, `f() == nil`
+				// `if f() != nil`, `f() == nil`: the error value itself is thrown away by the test, so the failure branch
+				// can only hand back a fresh error; returning some other error variable returns a stale (nil) one
+				if be, ok := par.(*ast.BinaryExpr); ok && be.Op == token.NEQ {
+					if ifs, ok := parents[be].(*ast.IfStmt); ok && ifs.Cond == ast.Expr(be) && len(ifs.Body.List) > 0 {
+						if r, ok := ifs.Body.List[len(ifs.Body.List)-1].(*ast.ReturnStmt); ok && len(r.Results) > 0 {
+							last := ast.Unparen(r.Results[len(r.Results)-1])
+							if id, ok := last.(*ast.Ident); ok && id.Name != "nil" && isErrorT(info.TypeOf(id)) {
+								report(Violation, call, callee, "the error of %s is only compared with nil and thrown away; the failure branch returns the unrelated variable `%s` (nil at this point), so the failure is reported as success", callee, id.Name)
+								return true
+							}
+						}
+					}
+				}
 				report(OK, call, callee, "tested in place")
 				return true
 			case *ast.KeyValueExpr, *ast.CompositeLit, *ast.SelectorExpr, *ast.IndexExpr, *ast.TypeAssertExpr, *ast.SendStmt:
